@@ -380,6 +380,10 @@ func (r *R) state(ctx sdk.Context) string {
 		own = append(own, r.symA(key)+":"+r.symA(bv.Value))
 	})
 	r.iter(ctx, types.OwnerProviderKey, func(key, v []byte) {
+		if len(key) < 40 {
+			ownp = append(ownp, "?"+hx.Hex(key))
+			return
+		}
 		ownp = append(ownp, r.symA(key[:20])+"/"+r.symA(key[20:]))
 	})
 	r.iter(ctx, types.WithdrawAddrKey, func(key, v []byte) {
@@ -407,13 +411,18 @@ func (r *R) state(ctx sdk.Context) string {
 		var bv gogotypes.BytesValue
 		cdc.MustUnmarshal(v, &bv)
 		if hx.Hex(bv.Value) != hx.Hex(key) {
-			hx.Fail("active-by-id value differs from key")
+			act = append(act, "?"+hx.Hex(key)+"="+hx.Hex(bv.Value))
+			return
 		}
 		act = append(act, hx.Hex(key))
 	})
 	r.iter(ctx, types.ActiveRequestKey, func(key, v []byte) {
 		// svc 0x00 provider(bech32) 0x00 height(8) requestID(58)
 		n := len(key)
+		if n < 68 {
+			actb = append(actb, "?"+hx.Hex(key))
+			return
+		}
 		rid := key[n-58:]
 		h := binary.BigEndian.Uint64(key[n-66 : n-58])
 		ss := splitStrs(key[:n-67])
@@ -434,14 +443,19 @@ func (r *R) state(ctx sdk.Context) string {
 	r.iter(ctx, types.EarnedFeesKey, func(key, v []byte) {
 		var c sdk.Coin
 		cdc.MustUnmarshal(v, &c)
-		if string(key[20:]) != c.Denom {
-			hx.Fail("earned-fee key denom differs from value")
+		if len(key) < 20 || string(key[20:]) != c.Denom {
+			earned = append(earned, fmt.Sprintf("?%s/%s:%s", hx.Hex(key), c.Denom, c.Amount))
+			return
 		}
 		earned = append(earned, fmt.Sprintf("%s/%s:%s", r.symA(key[:20]), c.Denom, c.Amount))
 	})
 	r.iter(ctx, types.OwnerEarnedFeesKey, func(key, v []byte) {
 		var c sdk.Coin
 		cdc.MustUnmarshal(v, &c)
+		if len(key) < 20 {
+			oearned = append(oearned, fmt.Sprintf("?%s/%s:%s", hx.Hex(key), c.Denom, c.Amount))
+			return
+		}
 		oearned = append(oearned, fmt.Sprintf("%s/%s:%s", r.symA(key[:20]), c.Denom, c.Amount))
 	})
 	r.iter(ctx, types.NewRequestBatchKey, func(key, v []byte) {
